@@ -23,6 +23,7 @@ v0, v1, v2 = S("v0"), S("v1"), S("v2")
 
 EXPRS = {
     "x": x, "2x": 2 * x, "x+y": x + y, "x*y": x * y, "x/2": x / 2, "-x": -x, "y-x": y - x, "x+y+z": x + y + z, "num": 0.75, "y": y, "z": z,
+    "(x-1)*y": (x - 1) * y, "x*z": x * z, "x-y": x - y,
 }
 MAPS = {
     "empty": {},
@@ -35,7 +36,18 @@ MAPS = {
     "x->y+z": {x: y + z},
     "x->2v0": {x: 2 * v0},
     "only-w": {w: v1},
+    # values nobody writes down: falsy numbers of every kind, values at which a factor vanishes or a difference cancels,
+    # renamings that change the name order of the remaining symbols
+    "x->0": {x: 0},
+    "x->0.0": {x: 0.0},
+    "x->Integer(0)": {x: sympy.Integer(0)},
+    "x->0,y->num": {x: 0, y: 0.75},
+    "x->1": {x: 1},
+    "x->y": {x: y},
+    "x->z": {x: z},
+    "y->-1,x->-2": {y: -1, x: -2},
 }
+SPECIAL_MAPS = ["x->0", "x->0.0", "x->Integer(0)", "x->0,y->num", "x->1", "x->y", "x->z", "y->-1,x->-2"]
 
 
 def ser_map(m):
@@ -207,6 +219,8 @@ def _w_gate(res, p):
     res.nontrivial()
     before = tuple(g.params)
     mm = _MapProbe(m)
+    if p.get("read_first"):
+        g.free_symbols
     bound = g.bind(mm.given)
     mm.check(res, p)
     # structure: params substituted one by one, free symbols exact, receiver untouched
@@ -259,10 +273,16 @@ def _w_circ(res, p):
     m = MAPS[p["map"]]
     res.nontrivial()
     mm = _MapProbe(m)
+    probs = []
+    if p.get("read_first"):
+        # history: the circuit's reports are asked for BEFORE it is bound (and again afterwards)
+        if list(c.free_symbols) != expected_free_symbols_circuit(c.operations):
+            probs.append(f"circuit.free_symbols {c.free_symbols} != first-appearance order {expected_free_symbols_circuit(c.operations)}")
+        for op in c.operations:
+            op.free_symbols
     bound = c.bind(mm.given)
     mm.check(res, p)
     res.ob(1)
-    probs = []
     if bound.n_qubits != c.n_qubits:
         probs.append(f"bind changed n_qubits {c.n_qubits} -> {bound.n_qubits}")
     if list(c.free_symbols) != expected_free_symbols_circuit(c.operations):
@@ -285,6 +305,8 @@ def _w_circ(res, p):
     # a second (partial) binding keeps the bookkeeping right
     if p.get("second"):
         m2 = MAPS[p["second"]]
+        if p.get("read_first"):
+            bound.free_symbols
         b2 = bound.bind(m2)
         res.ob(1)
         if list(b2.free_symbols) != expected_free_symbols_circuit(b2.operations) or b2.n_qubits != c.n_qubits:
@@ -357,6 +379,8 @@ def instances(tier, seed):
     gates = [(n, table[n][2]) for n in sorted(table) if table[n][2] > 0] + [("CG", 2), ("RX|c1", 1), ("RY|dagger", 1), ("U3|c1|dagger", 3), ("PHASE|dagger|c2", 1), ("XX|c1", 1)]
     for gname, npar in gates:
         for mname in MAPS:
+            if mname in SPECIAL_MAPS:
+                continue
             for es in (itertools.product(one, repeat=npar) if npar == 1 else [rng.sample(one + ["x+y+z", "y"], npar) for _ in range(3)]):
                 es = list(es)
                 if tier == "quick" and not stable_pick((gname, mname, es), 5 if gname in ("RX", "U3", "CG", "RX|c1", "U3|c1|dagger") else 14, seed):
@@ -364,6 +388,23 @@ def instances(tier, seed):
                 if tier == "thorough" and not stable_pick((gname, mname, es), 2, seed) and gname not in ("RX", "U3", "CG"):
                     continue
                 items.append(("gate", {"gate": gname, "exprs": es, "map": mname, "label": f"{gname}({','.join(es)}) map={mname}"}))
+    # special values on expression-valued parameters (every falsy kind of zero, vanishing factors, cancelling differences)
+    sp_gates = [("RX", ["2x"]), ("RX", ["x"]), ("RZ", ["x+y"]), ("RY", ["x*y"]), ("PHASE", ["(x-1)*y"]), ("RX", ["x-y"]), ("RY", ["x*z"]), ("CG", ["2x", "x+y"]), ("RX|c1", ["x/2"]), ("RY|dagger", ["y-x"]),
+                ("U3", ["x*y", "x", "(x-1)*y"]), ("U3|c1|dagger", ["x+y", "2x", "x*z"]), ("XX|c1", ["-x"])]
+    for k, (gname, es) in enumerate(sp_gates):
+        for j, mname in enumerate(SPECIAL_MAPS):
+            if tier == "quick" and (k + j) % 2 and gname not in ("RX", "RZ"):
+                continue
+            items.append(("gate", {"gate": gname, "exprs": es, "map": mname, "read_first": bool((k + j) % 3 == 0), "label": f"{gname}({','.join(es)}) map={mname}"}))
+    sp_circs = [
+        ([("RX", ["(x-1)*y"], (0,)), ("RY", ["x*y"], (1,)), ("RZ", ["x-y"], (0,))], None),
+        ([("RY", ["x*z"], (0,)), ("RZ", ["y"], (1,)), ("RX", ["2x"], (0,))], 3),
+        ([("RZ", ["x+y"], (0,)), ("CG", ["x", "x*y"], (1,))], None),
+    ]
+    for ops, n in sp_circs:
+        for mname in SPECIAL_MAPS + ["x,y->num", "x->y+z"]:
+            for rf in (True, False):
+                items.append(("circ", {"ops": ops, "n": n, "map": mname, "read_first": rf, "second": "x,y->num" if rf else "x->v0", "label": f"{[(g, e, q) for g, e, q in ops]} n={n} map={mname}{' after reading free_symbols' if rf else ''}"}))
     circs = [
         ([("RX", ["x"], (0,)), ("RY", ["x+y"], (1,)), ("XX", ["2x"], (0, 1))], None),
         ([("RZ", ["y"], (1,)), ("RX", ["x"], (0,)), ("RY", ["x*y"], (1,))], 3),
@@ -376,7 +417,10 @@ def instances(tier, seed):
         for mname in MAPS:
             if tier == "quick" and not stable_pick((str(ops), mname), 2, seed) and mname not in ("x->2v0", "total"):
                 continue
-            items.append(("circ", {"ops": ops, "n": n, "map": mname, "second": rng.choice([None, "x,y->num", "only-w", "x->v0"]), "label": f"{[(g, e, q) for g, e, q in ops]} n={n} map={mname}"}))
+            if mname in SPECIAL_MAPS:
+                continue
+            rf = stable_pick((str(ops), mname, "rf"), 2, seed)
+            items.append(("circ", {"ops": ops, "n": n, "map": mname, "read_first": rf, "second": rng.choice([None, "x,y->num", "only-w", "x->v0"]), "label": f"{[(g, e, q) for g, e, q in ops]} n={n} map={mname}{' after reading free_symbols' if rf else ''}"}))
     # complex values (ground): plain, daggered, controlled-daggered gates
     for gname, es in [("RX", ["x"]), ("RY|dagger", ["x"]), ("PHASE|dagger", ["x+y"]), ("U3|c1|dagger", ["x", "y", "num"]), ("PHASE|dagger|c2", ["2x"]), ("CG", ["x", "y"]), ("RZ", ["x*y"]), ("XX|c1", ["x/2"]), ("U3", ["y", "x", "x"])]:
         for mname in CPLX_MAPS:
@@ -393,7 +437,7 @@ def instances(tier, seed):
     for gid in ["X|pow(2)", "RX(0.3)|pow(0.5)", "H|exp", "T|dagger|pow(3)", "RZ(0.2)|exp", "X|pow(2)|c1"]:
         items.append(("refuse", {"gid": gid, "label": gid}))
     for es in (["x", "y", "num", "x+y"], ["2x", "-x"], ["x*y", "z", "y", "x", "num", "x/2", "y-x", "x"]):
-        for mname in (["x->v0", "total", "x->y+z"] if tier == "quick" else list(MAPS)):
+        for mname in (["x->v0", "total", "x->y+z", "x->0", "x->0.0", "x->y"] if tier == "quick" else list(MAPS)):
             items.append(("nongate", {"exprs": es, "map": mname, "label": f"MPO({','.join(es)}) map={mname}"}))
     return items
 
